@@ -53,8 +53,10 @@ Definition cap_of (s : mstate) (g : nat) : option (list N) :=
   match get_paren input s g with Ok o => o | _ => None end.
 
 (* interface of the matcher: good_step, and the group arrays it leaves can be sliced *)
-Hypothesis G : good_step matchf input.
-Hypothesis Hcaps : forall pos s s', pos <= n -> matchf pos s = MTrue s' -> forall g, exists o, get_paren input s' g = Ok o.
+(* relative to an invariant of the matcher state (trivial in the wrappers at the end) *)
+Variable Inv : mstate -> Prop.
+Hypothesis G : good_step_on matchf input Inv.
+Hypothesis Hcaps : forall pos s s', pos <= n -> Inv s -> matchf pos s = MTrue s' -> forall g, exists o, get_paren input s' g = Ok o.
 
 (* the output the specification prescribes: text between matches copied, each match replaced by
    the rendering of the replacement's items under that match's groups *)
@@ -96,47 +98,47 @@ Qed.
 
 (* from the second match on: the latch holds plain repl *)
 Lemma replace_loop_rest its : parse_repl maxc repl = PItems its ->
-  forall k pos s result, n - pos < k -> pos <= n ->
+  forall k pos s result, Inv s -> n - pos < k -> pos <= n ->
     replace_loop matchf false (S maxc) input repl (S k) pos s result false (plain repl)
     = Ok (result ++ rep_out its (S k) pos s).
 Proof.
-  intros Hp. induction k as [|k IH]; intros pos s result Hk Hpos; [lia|].
+  intros Hp. induction k as [|k IH]; intros pos s result Hinv Hk Hpos; [lia|].
   remember (S k) as k1 eqn:Ek. cbn [replace_loop rep_out]. fold n. subst k1.
   destruct (Nat.ltb pos n) eqn:Lt.
-  - apply Nat.ltb_lt in Lt. pose proof (G pos s Hpos) as Gp. pose proof (Hcaps pos s) as Hc.
+  - apply Nat.ltb_lt in Lt. pose proof (G pos s Hpos Hinv) as Gp. pose proof (Hcaps pos s) as Hc.
     destruct (matchf pos s) as [s'|s'| |e]; cbn [mres_bool rbind]; try contradiction.
-    + specialize (Hc s' Hpos eq_refl).
-      destruct Gp as (a & b & Ha & Hb & H1 & H2 & H3). rewrite Ha, Hb.
+    + specialize (Hc s' Hpos Hinv eq_refl).
+      destruct Gp as [(a & b & Ha & Hb & H1 & H2 & H3) Hinv']. rewrite Ha, Hb.
       rewrite rslice_ok by lia. cbn [rbind].
       replace (Nat.eqb b pos) with false by (symmetry; apply Nat.eqb_neq; lia).
       destruct (plain repl) eqn:Epl; cbn [negb].
       * (* raw replacement text = rendering of its items *)
-        cbn [rbind]. rewrite IH by lia. f_equal.
+        cbn [rbind]. rewrite (IH _ _ _ Hinv') by lia. f_equal.
         assert (Hits : its = map Lit repl).
         { unfold parse_repl in Hp. rewrite plain_parse in Hp by (auto; lia). injection Hp as <-. reflexivity. }
         rewrite Hits, render_lits, <- !app_assoc. reflexivity.
-      * rewrite (expand_valid its s' _ Hp Hc). rewrite Epl. cbn [rbind]. rewrite IH by lia.
+      * rewrite (expand_valid its s' _ Hp Hc). rewrite Epl. cbn [rbind]. rewrite (IH _ _ _ Hinv') by lia.
         rewrite <- !app_assoc. reflexivity.
     + unfold finish. rewrite rslice_ok by lia. reflexivity.
   - apply Nat.ltb_ge in Lt. unfold finish. rewrite rslice_ok by lia. cbn [rbind].
     assert (pos = n) by lia. subst pos. unfold slice. rewrite Nat.sub_diag. cbn [firstn]. reflexivity.
 Qed.
 
-Theorem replace_valid its s0 : parse_repl maxc repl = PItems its ->
+Theorem replace_valid_on its s0 : Inv s0 -> parse_repl maxc repl = PItems its ->
   replace_loop matchf false (S maxc) input repl (n + 2) 0 s0 [] true false
   = Ok (rep_out its (n + 2) 0 s0).
 Proof.
-  intros Hp. replace (n + 2) with (S (S n)) by lia.
+  intros Hinv Hp. replace (n + 2) with (S (S n)) by lia.
   remember (S n) as k1 eqn:Ek. cbn [replace_loop rep_out]. fold n. subst k1.
   destruct (Nat.ltb 0 n) eqn:Lt.
-  - apply Nat.ltb_lt in Lt. pose proof (G 0 s0 (Nat.le_0_l _)) as Gp. pose proof (Hcaps 0 s0) as Hc.
+  - apply Nat.ltb_lt in Lt. pose proof (G 0 s0 (Nat.le_0_l _) Hinv) as Gp. pose proof (Hcaps 0 s0) as Hc.
     destruct (matchf 0 s0) as [s'|s'| |e]; cbn [mres_bool rbind]; try contradiction.
-    + specialize (Hc s' (Nat.le_0_l _) eq_refl).
-      destruct Gp as (a & b & Ha & Hb & H1 & H2 & H3). rewrite Ha, Hb.
+    + specialize (Hc s' (Nat.le_0_l _) Hinv eq_refl).
+      destruct Gp as [(a & b & Ha & Hb & H1 & H2 & H3) Hinv']. rewrite Ha, Hb.
       rewrite rslice_ok by lia. cbn [rbind negb app].
       replace (Nat.eqb b 0) with false by (symmetry; apply Nat.eqb_neq; lia).
       rewrite (expand_valid its s' _ Hp Hc). cbn [rbind].
-      rewrite (replace_loop_rest its Hp n b s') by lia.
+      rewrite (replace_loop_rest its Hp n b s' _ Hinv') by lia.
       rewrite <- !app_assoc. reflexivity.
     + unfold finish, slice. rewrite Nat.sub_0_r. cbn [skipn]. unfold n. rewrite firstn_all. reflexivity.
   - apply Nat.ltb_ge in Lt. unfold finish. assert (E : n = 0) by lia.
@@ -144,21 +146,21 @@ Proof.
 Qed.
 
 (* a malformed replacement is never used to produce output: the first match reports the error *)
-Theorem replace_invalid s0 s' : parse_repl maxc repl = PInvalid -> 0 < n -> matchf 0 s0 = MTrue s' ->
+Theorem replace_invalid_on s0 s' : Inv s0 -> parse_repl maxc repl = PInvalid -> 0 < n -> matchf 0 s0 = MTrue s' ->
   replace_loop matchf false (S maxc) input repl (n + 2) 0 s0 [] true false = Err EInvalidRepl.
 Proof.
-  intros Hp Hn Hm. replace (n + 2) with (S (S n)) by lia.
+  intros Hinv Hp Hn Hm. replace (n + 2) with (S (S n)) by lia.
   remember (S n) as k1 eqn:Ek. cbn [replace_loop]. fold n. subst k1.
   replace (Nat.ltb 0 n) with true by (symmetry; apply Nat.ltb_lt; lia).
-  pose proof (G 0 s0 (Nat.le_0_l _)) as Gp. pose proof (Hcaps 0 s0 s' (Nat.le_0_l _) Hm) as Hc.
+  pose proof (G 0 s0 (Nat.le_0_l _) Hinv) as Gp. pose proof (Hcaps 0 s0 s' (Nat.le_0_l _) Hinv Hm) as Hc.
   rewrite Hm in *. cbn [mres_bool rbind].
-  destruct Gp as (a & b & Ha & Hb & H1 & H2 & H3). rewrite Ha.
+  destruct Gp as [(a & b & Ha & Hb & H1 & H2 & H3) _]. rewrite Ha.
   rewrite rslice_ok by lia. cbn [rbind negb app].
   rewrite (expand_invalid s' _ Hp Hc). reflexivity.
 Qed.
 
 (* '$0' : every match is replaced by itself *)
-Hypothesis Hcap0 : forall pos s s' a b, pos <= n -> matchf pos s = MTrue s' ->
+Hypothesis Hcap0 : forall pos s s' a b, pos <= n -> Inv s -> matchf pos s = MTrue s' ->
   get_pstart s' 0 = Some a -> get_pend s' 0 = Some b -> get_paren input s' 0 = Ok (Some (slice input a b)).
 
 Lemma slice_cat a b c : a <= b -> b <= c -> c <= n -> slice input a b ++ slice input b c = slice input a c.
@@ -176,27 +178,57 @@ Proof.
   rewrite F, S. replace (b - a + a) with b by lia. reflexivity.
 Qed.
 
-Lemma rep_out_dollar0 : forall k pos s, n - pos < k -> pos <= n ->
+Lemma rep_out_dollar0 : forall k pos s, Inv s -> n - pos < k -> pos <= n ->
   rep_out [Grp 0] (S k) pos s = slice input pos n.
 Proof.
-  induction k as [|k IH]; intros pos s Hk Hpos; [lia|].
+  induction k as [|k IH]; intros pos s Hinv Hk Hpos; [lia|].
   remember (S k) as k1 eqn:Ek. cbn [rep_out]. fold n. subst k1.
   destruct (Nat.ltb pos n) eqn:Lt.
-  - apply Nat.ltb_lt in Lt. pose proof (G pos s Hpos) as Gp. pose proof (Hcap0 pos s) as Hc.
+  - apply Nat.ltb_lt in Lt. pose proof (G pos s Hpos Hinv) as Gp. pose proof (Hcap0 pos s) as Hc.
     destruct (matchf pos s) as [s'|s'| |e]; try contradiction; [|reflexivity].
-    destruct Gp as (a & b & Ha & Hb & H1 & H2 & H3). rewrite Ha, Hb.
-    specialize (Hc s' a b Hpos eq_refl Ha Hb).
+    destruct Gp as [(a & b & Ha & Hb & H1 & H2 & H3) Hinv']. rewrite Ha, Hb.
+    specialize (Hc s' a b Hpos Hinv eq_refl Ha Hb).
     unfold render. cbn [flat_map Nat.leb]. unfold cap_of. rewrite Hc. rewrite app_nil_r.
-    rewrite IH by lia. rewrite slice_cat by lia. rewrite slice_cat by lia. reflexivity.
+    rewrite (IH _ _ Hinv') by lia. rewrite slice_cat by lia. rewrite slice_cat by lia. reflexivity.
   - apply Nat.ltb_ge in Lt. assert (pos = n) by lia. subst pos. unfold slice. rewrite Nat.sub_diag. reflexivity.
 Qed.
 
-Theorem replace_dollar0_identity s0 : repl = [36; 48]%N ->
+Theorem replace_dollar0_identity_on s0 : Inv s0 -> repl = [36; 48]%N ->
   replace_loop matchf false (S maxc) input repl (n + 2) 0 s0 [] true false = Ok input.
 Proof.
-  intros E. rewrite (replace_valid [Grp 0]).
-  - replace (n + 2) with (S (S n)) by lia. rewrite rep_out_dollar0 by lia.
+  intros Hinv E. rewrite (replace_valid_on [Grp 0] s0 Hinv).
+  - replace (n + 2) with (S (S n)) by lia. rewrite rep_out_dollar0 by (auto; lia).
     unfold slice. rewrite Nat.sub_0_r. cbn [skipn]. unfold n. rewrite firstn_all. reflexivity.
   - rewrite E. unfold parse_repl. cbn. destruct (Nat.leb maxc 9); reflexivity.
 Qed.
 End Rep.
+
+(* ---------- the instances with the trivial invariant ---------- *)
+Theorem replace_valid matchf maxc input repl (G : good_step matchf input)
+  (Hcaps : forall pos s s', pos <= length input -> matchf pos s = MTrue s' -> forall g, exists o, get_paren input s' g = Ok o)
+  its s0 : parse_repl maxc repl = PItems its ->
+  replace_loop matchf false (S maxc) input repl (length input + 2) 0 s0 [] true false
+  = Ok (rep_out matchf maxc input its (length input + 2) 0 s0).
+Proof.
+  apply (replace_valid_on matchf maxc input repl (fun _ => True) (good_step_trivial _ _ G)
+           (fun pos s s' Hp _ E => Hcaps pos s s' Hp E) its s0 I).
+Qed.
+Theorem replace_invalid matchf maxc input repl (G : good_step matchf input)
+  (Hcaps : forall pos s s', pos <= length input -> matchf pos s = MTrue s' -> forall g, exists o, get_paren input s' g = Ok o)
+  s0 s' : parse_repl maxc repl = PInvalid -> 0 < length input -> matchf 0 s0 = MTrue s' ->
+  replace_loop matchf false (S maxc) input repl (length input + 2) 0 s0 [] true false = Err EInvalidRepl.
+Proof.
+  apply (replace_invalid_on matchf maxc input repl (fun _ => True) (good_step_trivial _ _ G)
+           (fun pos s s' Hp _ E => Hcaps pos s s' Hp E) s0 s' I).
+Qed.
+Theorem replace_dollar0_identity matchf maxc input repl (G : good_step matchf input)
+  (Hcaps : forall pos s s', pos <= length input -> matchf pos s = MTrue s' -> forall g, exists o, get_paren input s' g = Ok o)
+  (Hcap0 : forall pos s s' a b, pos <= length input -> matchf pos s = MTrue s' ->
+     get_pstart s' 0 = Some a -> get_pend s' 0 = Some b -> get_paren input s' 0 = Ok (Some (slice input a b)))
+  s0 : repl = [36; 48]%N ->
+  replace_loop matchf false (S maxc) input repl (length input + 2) 0 s0 [] true false = Ok input.
+Proof.
+  apply (replace_dollar0_identity_on matchf maxc input repl (fun _ => True) (good_step_trivial _ _ G)
+           (fun pos s s' Hp _ E => Hcaps pos s s' Hp E)
+           (fun pos s s' a b Hp _ E => Hcap0 pos s s' a b Hp E) s0 I).
+Qed.
